@@ -3,10 +3,11 @@
 1. TLC (specs/DepFile.tla): every command o1 + up to 2/3 (quick) or 4 (thorough) items over 13 item
    kinds (objects, second spelling, archive, thin archive, thin member given directly, shared object,
    nested linker scripts, -l via -L, version script, dynamic list, export list, retain-symbols file).
-   For each the spec gives Read(cmd) (declarative rule), and TLC checks that the repaired algorithm
-   (thin archive file + auxiliary files pushed to loaded_files) satisfies DepOk for every command while
-   the transcription of the pinned algorithm only ever omits (WildOnlyOmits) and does violate DepOk
-   (DepFile_claim.cfg, anti-vacuity).
+   For each the spec gives Read(cmd) (declarative rule); TLC checks as an INVARIANT that the algorithm
+   coded today (thin archive file and auxiliary files pushed to loaded_files, de-duplication on the
+   absolute path) satisfies DepOk up to the retain-symbols file, that listing that file too satisfies DepOk
+   in full, and - anti-vacuity - that the algorithm wild had before the fix (DepFile_old.cfg) and the
+   claim "nothing is missing" (DepFile_claim.cfg: the retain file still is) are both rejected.
 2. Binding R: each exported command is linked for real with --dependency-file; the Makefile syntax is
    parsed, paths are resolved, and target / set / multiplicity are compared with Read(cmd).
 3. The rule Read itself is pinned independently: GNU ld's --dependency-file on the same command (as a
@@ -28,8 +29,8 @@ PROP = "C25"
 META = {
     "ready": True,
     "level": "model_checking",
-    "technique": "TLA+ rule Read(cmd) and DepOk, model-checked against a transcription of wild's loaded_files algorithm and a repaired variant over all small commands; every enumerated command replayed into the real wild with --dependency-file; Read pinned against GNU ld's dependency file and strace",
-    "level_text": "TLC enumerates all link commands of up to 4 items (thorough; 2 plus a sample of 3 quick) over 13 input/option kinds with duplicates, aliases and script nesting depth 2, computes Read(cmd) and checks that the repaired loaded_files algorithm satisfies DepOk on every command (and that the pinned one only omits). Every enumerated command that fits the time budget is linked for real and the parsed dependency file is compared (target, set, multiplicity) with Read(cmd); GNU ld's dependency file and strace's openat record of the same link pin Read(cmd) independently.",
+    "technique": "TLA+ rule Read(cmd) and DepOk, model-checked as an invariant of a transcription of wild's loaded_files algorithm as coded today (the pre-fix algorithm is the rejected broken variant) over all small commands; every enumerated command replayed into the real wild with --dependency-file; Read pinned against GNU ld's dependency file and strace",
+    "level_text": "TLC enumerates all link commands of up to 4 items (thorough; 2 plus a sample of 3 quick) over 13 input/option kinds with duplicates, aliases and script nesting depth 2, computes Read(cmd) and checks that the loaded_files algorithm as coded satisfies DepOk on every command up to the recorded omission of the retain-symbols file (the pre-fix algorithm is rejected). Every enumerated command that fits the time budget is linked for real and the parsed dependency file is compared (target, set, multiplicity) with Read(cmd); GNU ld's dependency file and strace's openat record of the same link pin Read(cmd) independently.",
     "level_note": "The universe of files is fixed (one of each kind, scripts nest to depth 2); sysroot, plugins/LTO temporaries, -T scripts, --just-symbols and response files (treated as part of the command line) are not modelled. Trusted base: TLC, GNU ld 2.40 and strace as witnesses of what a link reads, the Makefile-syntax parser in c25.py.",
     "engine": "tlc",
 }
@@ -252,10 +253,15 @@ def run(ctx):
         raise ToolError(f"exported {len(recs)} commands but TLC found {r.distinct} states")
     claim = tlc.run_tlc("DepFile", "mc/DepFile_claim.cfg", workers=2, timeout=300, coverage=False)
     if claim.ok:
-        log("note: the transcription of wild's algorithm satisfies DepOk in the model (transcription of a fixed tree?)")
+        log("note: the transcription of wild's algorithm satisfies DepOk in full (retain-symbols file listed now?)")
+    old = tlc.run_tlc("DepFile", "mc/DepFile_old.cfg", workers=2, timeout=300, coverage=False)
+    if old.ok or old.violated != "OldSatisfies":
+        raise ToolError("anti-vacuity: the pre-fix dependency-file algorithm was not rejected by the model")
     cov["states"], cov["transitions"] = r.distinct, r.generated
-    cov["tlc_runs"] = [{"cfg": cfg, **r.summary()}, {"cfg": "mc/DepFile_claim.cfg", "expected_violation": claim.violated}]
+    cov["tlc_runs"] = [{"cfg": cfg, **r.summary()}, {"cfg": "mc/DepFile_claim.cfg", "expected_violation": claim.violated},
+                       {"cfg": "mc/DepFile_old.cfg", "expected_violation": old.violated}]
     cov["model_predicts_wild_incomplete"] = sum(1 for x in recs if not x["wild_ok"])
+    cov["old_algorithm_incomplete"] = sum(1 for x in recs if sorted(set(x["old"])) != sorted(x["read"]) or len(set(x["old"])) != len(x["old"]))
 
     first = sorted((x for x in recs if len(x["cmd"]) <= 2), key=lambda x: (len(x["cmd"]), x["cmd"]))
     rest = [x for x in recs if len(x["cmd"]) > 2]
